@@ -81,7 +81,7 @@ def oracle(case, out):
     return None
 
 
-FLOAT_EXACT = ("EnforceGCContent", "AvoidPattern", "AvoidChanges", "EnforceChanges", "CountLetter",
+FLOAT_EXACT = ("EnforceGCContent", "AvoidPattern", "AvoidChanges", "EnforceChanges", "CountLetter", "CountLetterCapped",
                "EnforcePatternOccurence", "UniquifyAllKmers", "AvoidHairpins")
 
 
